@@ -82,10 +82,13 @@ def main():
     ap.add_argument('--tier', default='quick')
     ap.add_argument('--seeded', action='store_true',
                     help='run the independent changes under /verif/seeded')
+    ap.add_argument('--benign', action='store_true',
+                    help='run the behaviour-preserving refactorings under '
+                         '/verif/benign: every check must stay at exit 0')
     a = ap.parse_args()
-    if a.seeded:
+    if a.seeded or a.benign:
         ms = []
-        sd = os.path.join(VERIF, 'seeded')
+        sd = os.path.join(VERIF, 'benign' if a.benign else 'seeded')
         for d in sorted(os.listdir(sd)):
             mp = os.path.join(sd, d, 'meta.json')
             if os.path.exists(mp):
@@ -109,8 +112,8 @@ def main():
                   f"{r.get('wall_s', '')!s:>6} {r.get('classes', '')} "
                   f"{r.get('note', '')[:60]} {r.get('tail', '')[-200:]}",
                   flush=True)
-    path = os.path.join(VERIF, 'seeded' if a.seeded else 'mutants',
-                        'results.json')
+    path = os.path.join(VERIF, 'benign' if a.benign else
+                        'seeded' if a.seeded else 'mutants', 'results.json')
     old = {}
     if os.path.exists(path):
         old = {r['id']: r for r in json.load(open(path))}
@@ -118,8 +121,12 @@ def main():
         old[r['id']] = r
     json.dump(sorted(old.values(), key=lambda r: r['id']), open(path, 'w'),
               indent=1)
-    missed = [r['id'] for r in out if r['status'] != 'CAUGHT']
-    print('not caught:', missed)
+    if a.benign:
+        print('alarms or harness errors on behaviour-preserving changes:',
+              [r['id'] for r in out if r['status'] != 'MISSED'])
+    else:
+        missed = [r['id'] for r in out if r['status'] != 'CAUGHT']
+        print('not caught:', missed)
     return 0
 
 
